@@ -294,6 +294,22 @@ class Obj:
         return 'Obj(' + ', '.join(f'{k}={v!r}' for k, v in self.__dict__.items()) + ')'
 
 
+class NeverEq:
+    """An object that is not even equal to itself (like NaN, but of a user class)."""
+    def __eq__(self, other):
+        return False
+
+    def __hash__(self):
+        return 7
+
+    def __repr__(self):
+        return 'NEQ'
+
+
+NEQ = NeverEq()
+NAN = float('nan')
+
+
 # --- further hint kinds (reduced by beartype to shallower checks) --------------------------------------------------
 import dataclasses
 import pathlib
@@ -350,7 +366,7 @@ FinI = typing.Final[int]
 
 # Names visible to eval() of rendered hint / object sources (replay scripts).
 NAMESPACE = {
-    'GReg': GReg, 'GOut': GOut, 'TD': TD, 'TDo': TDo, 'NT': NT, 'DC': DC, 'UCM': UCM, 'AL': AL, 'ALg': ALg, 'ALr': ALr, 'ALgi': ALgi, 'TupU': TupU, 'TupUU': TupUU,
+    'NEQ': NEQ, 'NAN': NAN, 'GReg': GReg, 'GOut': GOut, 'TD': TD, 'TDo': TDo, 'NT': NT, 'DC': DC, 'UCM': UCM, 'AL': AL, 'ALg': ALg, 'ALr': ALr, 'ALgi': ALgi, 'TupU': TupU, 'TupUU': TupUU,
     'PatS': PatS, 'MatS': MatS, 'GenI': GenI, 'CtxI': CtxI, 'PathS': PathS, 'InitI': InitI, 'FinI': FinI, 're': re, 'pathlib': pathlib,
     'K': K, 'K2': K2, 'Other': Other, 'E': E, 'IE': IE, 'NL': NL, 'NF': NF, 'TF': TF, 'TL': TL, 'TU': TU, 'N': N, 'T': T, 'TB': TB, 'TC': TC, 'P': P, 'PImpl': PImpl,
     'G': G, 'GL': GL, 'USeq': USeq, 'UMSeq': UMSeq, 'UMap': UMap, 'UMMap': UMMap, 'USet': USet,
